@@ -327,8 +327,9 @@ func (t Table) matchingHosts(req *http.Request, globCache *GlobCache) (hosts []s
 		//Get Compiled Glob from LRU cache
 		g, err := globCache.Get(normpat)
 		if err != nil {
+			// a host pattern which is not a valid glob matches no request
 			log.Print("[Error] Compiling glob - ", err)
-			g = glob.MustCompile(normpat)
+			continue
 		}
 
 		if g.Match(host) {
